@@ -357,7 +357,7 @@ crate::internals::macros::impl_error!(FuzzyHashOperationError {});
 #[doc(alias = "hash_from_bytes_with_last_index_internal_template")]
 macro_rules! hash_from_bytes_with_last_index_internal_template_impl {
     (
-        $str: expr, $index: expr, $norm: expr,
+        $str: expr, $index: expr, $norm: expr, $limit_raw_len: expr,
         $log_blocksize: expr,
         { $($proc_to_prepare_blockhash1: tt)* }, $proc_to_process_sequence_1: expr,
         $blockhash1: expr, $len_blockhash1: expr,
@@ -374,10 +374,11 @@ macro_rules! hash_from_bytes_with_last_index_internal_template_impl {
             Err(err) => { return Err(err); }
         };
         $($proc_to_prepare_blockhash1)*
-        let (result, parsed_len) = algorithms::parse_block_hash_from_bytes::<_, S1>(
+        let (result, parsed_len) = algorithms::parse_block_hash_from_bytes_internal::<_, S1>(
             &mut $blockhash1,
             &mut $len_blockhash1,
             $norm,
+            $limit_raw_len,
             &mut buf, $proc_to_process_sequence_1
         );
         offset += parsed_len;
@@ -398,10 +399,11 @@ macro_rules! hash_from_bytes_with_last_index_internal_template_impl {
             }
         }
         $($proc_to_prepare_blockhash2)*
-        let (result, parsed_len) = algorithms::parse_block_hash_from_bytes::<_, S2>(
+        let (result, parsed_len) = algorithms::parse_block_hash_from_bytes_internal::<_, S2>(
             &mut $blockhash2,
             &mut $len_blockhash2,
             $norm,
+            $limit_raw_len,
             &mut buf, $proc_to_process_sequence_2
         );
         offset += parsed_len;
@@ -1047,7 +1049,7 @@ where
     ) -> Result<Self, ParseError> {
         let mut fuzzy = Self::new();
         hash_from_bytes_with_last_index_internal_template! {
-            str, index, NORM,
+            str, index, NORM, false,
             fuzzy.log_blocksize,
             {}, #[inline(always)] |_, _| {}, fuzzy.blockhash1, fuzzy.len_blockhash1,
             {}, #[inline(always)] |_, _| {}, fuzzy.blockhash2, fuzzy.len_blockhash2
